@@ -225,29 +225,28 @@ theorem clearN_beyond_reachable (w : Nat) (hw : 1 ≤ w) (ops : List Op) (newer 
 `Model/SectionIndent.lean`: a section inherits the indentation of its output at creation and can change
 it later; the recorded lines carry the indentation, an empty line is printed without it. -/
 
-/-- **An indented history is the base history on the padded lines.**  The sections (contents and row
-counters) after any history with indentation are those of the base model after `flat` of it (every
-written line behind the blanks of the section's indentation at that moment); and unless an empty
-line is written at a positive indentation (`blankSafe`) the streams are the same, command for command. -/
+/-- **An indented history is the base history on the indented lines.**  The sections (contents and row
+counters) and the stream of any history with indentation are those of the base model after `flat` of it:
+every written non-empty line behind the blanks of the section's indentation at that moment, an empty line
+as it is. -/
 theorem indent_simulates (ansi : Bool) (w : Nat) (iops : List IOp) :
     (runI ansi w { secs := [], ind := [] } iops).1.secs = (run ansi w [] (flat [] iops)).1 ∧
-    (blankSafe [] iops = true →
-      (runI ansi w { secs := [], ind := [] } iops).2 = (run ansi w [] (flat [] iops)).2) :=
+    (runI ansi w { secs := [], ind := [] } iops).2 = (run ansi w [] (flat [] iops)).2 :=
   runI_sim ansi w iops { secs := [], ind := [] }
 
-/-- **The screen shows the stacked (indented) contents.**  `screen_refines` for histories over sections
-with indentation - inherited at creation, changed in the middle -: the screen is `above` followed by
-the contents of all sections in creation order (a redrawn section is NOT indented again: it shows what
-it holds), the cursor is below, the row counters are exact. -/
-theorem screen_refines_indented (w : Nat) (hw : 1 ≤ w) (iops : List IOp) (above : List Str)
-    (hs : blankSafe [] iops = true) :
+/-- **The screen shows the stacked (indented) contents.**  `screen_refines` for EVERY history over sections
+with indentation - inherited at creation, changed in the middle, smaller or larger than the width, empty
+lines included -: the screen is `above` followed by the contents of all sections in creation order (a
+redrawn section is NOT indented again: it shows what it holds), the cursor is below, the row counters are
+exact. -/
+theorem screen_refines_indented (w : Nat) (hw : 1 ≤ w) (iops : List IOp) (above : List Str) :
     let r := runI true w { secs := [], ind := [] } iops
     let scr := execs w { rows := above, cur := above.length } r.2
     scr.rows = above ++ stacked w r.1.secs ∧
     scr.cur = scr.rows.length ∧
     ∀ s ∈ r.1.secs, s.rows = (linesRows w s.content).length := by
   have h := indent_simulates true w iops
-  simp only [h.1, h.2 hs]
+  simp only [h.1, h.2]
   exact screen_refines w hw (flat [] iops) above
 
 /-- The contents of indented sections are what the operations ask for: the written lines behind the
@@ -269,15 +268,9 @@ theorem indent_free_is_base (ansi : Bool) (w : Nat) (ops : List Op) : ∀ (secs 
     intro secs
     have h0 : indOf [] (target o) = 0 := by simp [indOf]
     have hstep : stepI ansi w secs 0 o = step ansi w secs o := by
-      rw [stepI_eq ansi w secs 0 o (by simp [blankSafeOp]), step_padOp_zero]
+      rw [stepI_eq ansi w secs 0 o, step_padOp_zero]
     simp only [List.map_cons, runI, stepIO, run, h0, hstep]
     exact ⟨(ih _).1, by rw [(ih _).2]⟩
-
-/-- The decider `blankSafe` the driver evaluates means what it says for a single operation. -/
-theorem blankSafe_decides (n : Nat) (o : Op) :
-    blankSafeOp n o = true ↔ (n = 0 ∨ ∀ l ∈ opLines o, l ≠ []) := by
-  simp only [blankSafeOp, Bool.or_eq_true, beq_iff_eq, List.all_eq_true, Bool.not_eq_true',
-    List.isEmpty_eq_false_iff]
 
 /-! ## non-vacuity -/
 
@@ -291,17 +284,29 @@ example : (runI true 10 { secs := [], ind := [] } demoI).2 =
     [.print "qrs".toList, .up 1, .eraseBelow, .print "  lmn".toList, .print "qrs".toList,
      .print "   x".toList] := by decide
 
-example : blankSafe [] demoI = true ∧
-    flat [] demoI = [.create, .create, .write 1 ["qrs".toList], .write 0 ["  lmn".toList],
+example : flat [] demoI = [.create, .create, .write 1 ["qrs".toList], .write 0 ["  lmn".toList],
                      .write 1 ["   x".toList]] := by decide
 
-example := screen_refines_indented 10 (by decide) demoI [] (by decide)
+example := screen_refines_indented 10 (by decide) demoI []
 
-/-- an empty line at a positive indentation: recorded as blanks, printed empty (`blankSafe` is not
-constantly true) -/
-example : blankSafe [] [.create 2, .op (.write 0 [[]])] = false ∧
-    (runI true 10 { secs := [], ind := [] } [.create 2, .op (.write 0 [[]])]) =
-      ({ secs := [{ content := ["  ".toList], rows := 1 }], ind := [2] }, [.print []]) := by decide
+/-- an empty line at a positive indentation is recorded and printed empty, one row -/
+example : (runI true 10 { secs := [], ind := [] } [.create 2, .op (.write 0 [[]])]) =
+      ({ secs := [{ content := [[]], rows := 1 }], ind := [2] }, [.print []]) := by decide
+
+/-- **D38 as it was before the repair** (`writeSecPadAll`: an empty line recorded behind the blanks).
+Width 3; the older section shows `A1`, `A2`; the newer one, indentation 4, writes an empty line: ONE empty
+row on the screen, but `"    "` recorded and TWO rows counted.  The next write on the older section moves
+up two rows and erases `A2`.  With the rule as it is now the screen shows all three lines. -/
+example :
+    let A1 := "A1".toList; let A2 := "A2".toList; let A3 := "A3".toList
+    let a : Sec := { content := [A1, A2], rows := 2 }
+    let scr : Screen := { rows := [A1, A2], cur := 2 }
+    let old := writeSecPadAll 3 [] { content := [], rows := 0 } 4 [[]]
+    let new := writeSecI 3 [] { content := [], rows := 0 } 4 [[]]
+    old.1 = { content := ["    ".toList], rows := 2 } ∧ old.2 = [.print []] ∧
+    (execs 3 scr (old.2 ++ (writeSec 3 [old.1] a [A3]).2)).rows = [A1, A3, "   ".toList, " ".toList] ∧
+    new.1 = { content := [[]], rows := 1 } ∧
+    (execs 3 scr (new.2 ++ (writeSec 3 [new.1] a [A3]).2)).rows = [A1, A2, A3, []] := by decide
 
 private def a7 : Str := "aaaaaaa".toList
 private def b3 : Str := "bbb".toList
